@@ -915,3 +915,74 @@ def depth_of(e):
     if isinstance(e, list):
         return max([depth_of(x) for x in e] or [0])
     return 0
+
+
+# ---------------------------------------------------------------------------------------------------------
+# replaying rows in worker processes (the replay is pure Python; the budget is wall time on a shared machine)
+class Acc:
+    """Stands in for common.Report inside a worker: the same case()/sample() accounting, merged afterwards."""
+
+    def __init__(self):
+        self.evaluations = 0
+        self.nontrivial = set()
+        self.samples = []
+        self.traces = 0
+        self.extra = {}
+
+    def case(self, sample=None, nontrivial_key=None):
+        self.evaluations += 1
+        if nontrivial_key is not None:
+            self.nontrivial.add(nontrivial_key if isinstance(nontrivial_key, str) else jdump(nontrivial_key))
+        if sample is not None and len(self.samples) < 4:
+            self.samples.append(sample)
+
+    def sample(self, s, force=False):
+        if len(self.samples) < 4 or force:
+            self.samples.append(s)
+
+
+def merge_acc(rep, acc):
+    rep.evaluations += acc.evaluations
+    rep.nontrivial |= acc.nontrivial
+    rep.traces += acc.traces
+    for smp in acc.samples:
+        if len(rep.samples) < 4:
+            rep.samples.append(smp)
+    for k, v in acc.extra.items():
+        rep.extra[k] = rep.extra.get(k, 0) + v
+
+
+def _worker_init(repo):
+    os.environ["VERIF_REPO"] = repo
+    from .common import use_repo
+
+    use_repo()
+
+
+_EXEC = []
+
+
+def run_parallel(fn, chunks, nproc=3):
+    """fn(chunk) for every chunk in `nproc` spawned worker processes (spawn, not fork: the parent has threads)."""
+    import atexit
+    import multiprocessing
+    from concurrent.futures import ProcessPoolExecutor
+
+    from .common import repo_path
+
+    if not _EXEC:
+        ex = ProcessPoolExecutor(
+            max_workers=nproc, mp_context=multiprocessing.get_context("spawn"), initializer=_worker_init, initargs=(repo_path(),)
+        )
+        _EXEC.append(ex)
+        atexit.register(ex.shutdown, wait=False, cancel_futures=True)
+    try:
+        return list(_EXEC[0].map(fn, chunks))
+    except tlc.MachineryError:
+        raise
+    except Exception as ex:  # a worker died or raised something that is not a verdict
+        raise tlc.MachineryError("replay worker failed: %r" % (ex,)) from ex
+
+
+def split(rows, n):
+    return [rows[i::n] for i in range(n) if rows[i::n]]
